@@ -107,7 +107,28 @@ func (m *Machine) binop(op token.Token, x, y Val, xt, rt types.Type, in ssa.Inst
 	return nil
 }
 
+// arith computes an integer operation on intervals; a non-constant result of
+// named operands gets the expression as its name, so that byte layouts can be
+// compared symbolically.
 func (m *Machine) arith(op token.Token, a, b Int, rt types.Type) Val {
+	r := m.arith0(op, a, b, rt)
+	ri, ok := r.(Int)
+	if !ok || ri.IsConst() {
+		return r
+	}
+	if ri == a || ri == b { // operand returned unchanged (e.g. x % c with x < c)
+		return ri
+	}
+	an, bn := nameOf(a), nameOf(b)
+	if an != "" && bn != "" {
+		ri.Name = "(" + an + op.String() + bn + ")"
+	} else {
+		ri.Name = ""
+	}
+	return ri
+}
+
+func (m *Machine) arith0(op token.Token, a, b Int, rt types.Type) Val {
 	rbits, rsigned, _ := typeBits(rt)
 	norm := func(r Int) Val {
 		if r.Top {
@@ -262,6 +283,12 @@ func (m *Machine) arith(op token.Token, a, b Int, rt types.Type) Val {
 			return Int{Lo: 0, Hi: b.Lo - 1}
 		}
 	case token.AND:
+		if r, ok := andBit(a, b); ok {
+			return r
+		}
+		if r, ok := andBit(b, a); ok {
+			return r
+		}
 		if b.IsConst() && b.Lo >= 0 {
 			return Int{Lo: 0, Hi: b.Lo}
 		}
@@ -296,6 +323,25 @@ func (m *Machine) arith(op token.Token, a, b Int, rt types.Type) Val {
 		}
 	}
 	return norm(Int{Top: true})
+}
+
+// andBit is exact for x & c when c is a single bit that is constant over the
+// whole interval x, or when x lies entirely below the lowest set bit of c.
+func andBit(x, c Int) (Int, bool) {
+	if !c.IsConst() || c.Lo <= 0 || x.Top || x.Lo < 0 {
+		return Int{}, false
+	}
+	low := c.Lo & -c.Lo
+	if x.Hi < low {
+		return K(0), true
+	}
+	if c.Lo&(c.Lo-1) == 0 { // single bit
+		k := uint(bits.TrailingZeros64(uint64(c.Lo)))
+		if x.Lo>>k == x.Hi>>k {
+			return K(((x.Lo >> k) & 1) << k), true
+		}
+	}
+	return Int{}, false
 }
 
 // cmpInt decides an ordering comparison for whole intervals, or refines, or
